@@ -76,6 +76,8 @@ func (r *c10rec) ctx(b *c10bracket, t *rapid.T, note string) {
 	r.events = append(r.events, c10ev{br: b.id, kind: "ctx", live: c.Err() == nil, note: note})
 }
 
+type c10Key struct{}
+
 const (
 	c10None = iota
 	c10Panic
@@ -366,7 +368,22 @@ func c10Run(t *testing.T, sc Scenario, res *Result) {
 		}
 		setFlags(fl)
 		tb := newTB(fmt.Sprintf("C10_%x", sc.Seed&0xffff))
-		runCheck(tb, c10Body(rec, sc.Seed))
+		if r.chance(1, 3) {
+			// a TB with a Context of its own (as *testing.T has since Go 1.24): the test cases' contexts are derived from it
+			parent, cancelParent := context.WithCancel(context.WithValue(context.Background(), c10Key{}, sc.Seed))
+			defer cancelParent()
+			runCheckAs(tb, ctxTB{tb, parent}, c10Body(rec, sc.Seed))
+			res.inc("checks_on_a_TB_with_Context")
+			for _, b := range rec.brackets {
+				for _, c := range b.ctxs {
+					if c.Value(c10Key{}) == sc.Seed {
+						res.inc("contexts_derived_from_the_TB_context")
+					}
+				}
+			}
+		} else {
+			runCheck(tb, c10Body(rec, sc.Seed))
+		}
 		detail["flags"] = fl
 		detail["tb"] = tb.brief()
 		if tb.escaped != nil {
